@@ -77,7 +77,41 @@ CLAIM = dict(
           "multi-byte decoding is neither modelled nor proved. Other domain limits: state bytes of absent cores are "
           "valid state codes; at most 18 core slots per chip; core numbers are naturals (a negative p is simply absent "
           "in the code); one-byte status fields are unconstrained naturals in the model; at least one listed chip "
-          "(otherwise the code raises ValueError, sysinfo_empty)."),
+          "(otherwise the code raises ValueError, sysinfo_empty). "
+          "EXPLORATION (what each stream validates; verdicts always from the Lean oracles / model): "
+          "[1 argument kinds] session probes pass x, y, p as int / numpy.int64 / bool / int subclass (IntEnum-like), by "
+          "position, keyword or contextual arguments (`with mc(x=, y=, p=)`); descriptions built by the caller are "
+          "SystemInfo or a subclass, from a dict / list of pairs / one-shot iterator / keyword width-height, records "
+          "ChipInfo or a subclass with set / frozenset links and list / tuple states, quantities up to 2**100; resource "
+          "identifiers of build_machine / build_core_constraints are the defaults, '%'/'{}' strings, tuples of length "
+          "0-3, namedtuples, frozensets, plain objects, the ints 0/1/-1, by position and keyword; membership queries pass "
+          "bool / int-subclass core numbers. Not applicable: no function in scope takes byte strings or collections "
+          "other than the description itself; numpy integers inside `(x, y, p) in system_info` are only legal as far as "
+          "six.integer_types goes (numpy.int64 is not one) - not generated. "
+          "[2 optional parameters] non-default values: read_struct_field(p=), get_software_version(x, y, processor), "
+          "get_system_info(x, y) and defaults, get_machine(x, y, default_num_cores) by position and keyword, "
+          "build_machine(core_resource, sdram_resource, sram_resource), build_core_constraints(core_resource), "
+          "SystemInfo(*args, **kwargs), MachineController(n_tries, timeout, structs); left at the default: scp_port / "
+          "boot_port / initial_context of the controller (C06 / C18), _get_minimal_core_reservations(chip) is private. "
+          "[3 scale] descriptions 1 x N, N x 1, 2 x N with N up to 4097 chips, console output chained over 257-1100 "
+          "blocks, P2P tables 255 x 255 (the dimension register is two bytes: 256 cannot be expressed), nothing in scope "
+          "is counted in 16 bits; any exception there is a finding (the models are total). "
+          "[4 histories] sessions and derive scripts: same call repeated, twins differing in one chip / layout / "
+          "controller in both orders, two controllers and two layouts alternately; every batch of 40 histories starts "
+          "with the in-scope rig modules imported afresh and a failing history is re-run alone after a fresh import - if "
+          "it then passes, the replay carries all histories of the batch before it (kind `histories`). "
+          "[5 caller keeps and edits] (a) descriptions passed to the derivations are edited and passed again, (b) every "
+          "mutable returned object is edited (see CALLER EDITS), (c) every unedited result is kept and compared at the "
+          "end of the history with what it was when returned (`kept-result-changed`), (d) the generators of SystemInfo "
+          "and Machine are advanced alternately, in twins, abandoned half-way and resumed after other calls. "
+          "[6 faults] during a session probe one datagram is lost once (retry succeeds: judged normally), a command and "
+          "all its retries are lost, or an error code comes back (SCPError permitted; get_system_info may drop the chip: "
+          "tagged, not judged), then the same call is repeated and the controller used further - all judged. "
+          "[7 configuration] per chip: system variables, struct layout, version string / buffer size in sver, core "
+          "states, links; per case: SCP buffer 64-512, n_tries 1-5, timeout, root chip; window size is fixed at 1 by the "
+          "code (no public way to change it). [8 non-termination] every implementation call runs under "
+          "common.cpu_limit (2 s per probe, 6 s per derivation bundle, quartered after 3 hangs) and a datagram budget; a "
+          "call that does not return is `did-not-return` (the Lean models are total)."),
     technique="Lean 4 theorems over decode model o machine specification + correspondence against a simulated machine")
 
 THEOREMS = ["consts_documented", "chipinfo_roundtrip", "p2p_roundtrip", "p2p_table_mem", "sysinfo_exact",
@@ -101,7 +135,10 @@ RULE = ("cases = machine states: (system) P2P dimensions 1..12 x 1..12 and spars
         "layout); (derive) a system-case machine (40% under a non-bundled struct layout, read before and after the boot "
         "that installs it), two controllers, a script of probes (get_system_info / "
         "get_machine), derivations, edits of the description and of derived objects. non-trivial = session probing "
-        ">= 2 chips, derive case whose description has >= 2 chips and a busy core or dead chip, "
+        ">= 2 chips, derive case whose description has >= 2 chips and a busy core or dead chip, (options of every "
+        "session step: calling convention pos/kw/context, integer kind int/numpy/bool/int-subclass, network fault "
+        "lose1/loseall/rc + retry; of every direct / derive case: kind of description object, resource identifiers, "
+        "lazy consumption, kind of query integers; scale: 2+ huge descriptions and 2+ chains of 257-1100 blocks per run) "
         "system/direct case with >= 2 described chips and a busy non-monitor core or a dead chip, chip case in the "
         "valid domain, core case with >= 1 block, sver case in the string encoding; distinct = distinct canonical JSON")
 
@@ -152,7 +189,7 @@ def run_controller(machine, fn, silent=(), rc_chips=None, n_tries=3):
     net = simnet.Net(machine.handle, scr)
     with simnet.installed(net):
         mc = simmachine.make_controller(net, n_tries=n_tries, timeout=2.0)
-        return guard(lambda: fn(mc))
+        return guard(lambda: limited(lambda: fn(mc)))
 
 
 class Runaway(BaseException):
@@ -160,26 +197,76 @@ class Runaway(BaseException):
 
 
 class Budget(object):
-    """network script that answers every datagram and stops a probe that runs away (e.g. one that walks memory
-    it was never meant to read)"""
+    """network script that answers every datagram, stops a probe that runs away (e.g. one that walks memory it was
+    never meant to read) and injects the fault planned for the current probe: ("lose1", i) = the i-th datagram of
+    the probe is lost once (the retry gets through), ("loseall", i, n) = it and its n - 1 retries are lost,
+    ("rc", i) = it is answered with an error code"""
 
     def __init__(self, limit=3000):
-        self.limit, self.left = limit, limit
+        self.limit = limit
+        self.reset()
 
-    def reset(self):
-        self.left = self.limit
+    def reset(self, plan=None):
+        self.left, self.sent, self.plan, self.hit = self.limit, 0, plan, False
 
     def __call__(self, k, data):
         self.left -= 1
         if self.left < 0:
             raise Runaway()
+        i = self.sent
+        self.sent += 1
+        if self.plan:
+            mode, at = self.plan[0], self.plan[1]
+            if mode == "lose1" and i == at or mode == "loseall" and at <= i < at + self.plan[2]:
+                self.hit = True
+                return []
+            if mode == "rc" and i == at:
+                self.hit = True
+                return [(1, ("rc", 0x87))]
         return [(1, "ok")]
 
 
+_HANGS = [0]
+RIG_STATEFUL = ["rig.machine_control.machine_controller", "rig.machine_control.common", "rig.place_and_route.utils",
+                "rig.place_and_route.machine", "rig.routing_table.utils"]
+
+
 def limited(fn, seconds=2):
-    """fn() within a CPU-time limit (a probe of these machines takes milliseconds)"""
-    with common.cpu_limit(seconds):
-        return fn()
+    """fn() within a CPU-time limit ~100x what a call on these machines takes (milliseconds); after three hangs
+    the limit drops so a broken tree does not make the run long"""
+    try:
+        with common.cpu_limit(seconds if _HANGS[0] < 3 else seconds / (4.0 if _HANGS[0] < 10 else 10.0)):
+            return fn()
+    except common.ImplHang:
+        _HANGS[0] += 1
+        raise
+
+
+def fresh_rig():
+    """a history starts with the in-scope rig modules imported afresh (module-level tables, default-argument
+    objects and class attributes are as in a new process), so the case alone is a replayable history"""
+    import importlib
+    import sys
+    for k in RIG_STATEFUL:
+        sys.modules.pop(k, None)
+    for k in RIG_STATEFUL:
+        importlib.import_module(k)
+
+
+class _Coord(int):
+    """an int subclass, as an IntEnum member is"""
+
+
+def as_kind(v, kind):
+    """the integer argument v in another kind the API accepts"""
+    if kind == "np":
+        import numpy
+        return numpy.int64(v)          # what indexing a default integer array gives
+    if kind == "bool" and v in (0, 1):
+        return bool(v)
+    if kind == "enum":
+        return _Coord(v)
+    return v
 
 
 def guard(fn):
@@ -190,7 +277,7 @@ def guard(fn):
     except Runaway:
         return {"err": "Runaway"}
     except common.ImplHang as e:
-        return {"err": "Hang (%s)" % (e,)}
+        return {"err": "DidNotReturn (%s)" % (e,)}
     except sc.SCPError:
         return {"err": "SCPError"}
     except ValueError as e:
@@ -201,6 +288,8 @@ def guard(fn):
         return {"err": "AssertionError"}
     except (KeyError, IndexError, TypeError) as e:
         return {"err": type(e).__name__}
+    except Exception as e:      # noqa: any other exception is a result to be judged, not a harness failure
+        return {"err": "Exception:" + type(e).__name__}
 
 
 # --------------------------------------------------------------------------- canonical forms
@@ -228,45 +317,160 @@ def si_json(si):
             "chips": [dict(ci_json(ci), x=int(xy[0]), y=int(xy[1])) for xy, ci in si.items()]}
 
 
-def machine_json(m):
+def resource_ids(idx):
+    """(core, sdram, sram) resource identifiers: None = the defaults; otherwise hashable objects of every kind"""
+    import collections
+    if not idx:
+        return None
+    if idx == 1:
+        return ("cores %d%% {}", "sdram{0}", "%s")
+    if idx == 2:
+        return ((), ("sdram",), ("sram", 1, 2))
+    if idx == 3:
+        R = collections.namedtuple("R", "name n")
+        return (R("cores", 0), R("sdram", 1), R("sram", 2))
+    if idx == 4:
+        return (frozenset(), frozenset([1]), frozenset(["a", "b"]))
+    if idx == 5:
+        return (object(), object(), object())
+    return (0, 1, -1)
+
+
+def machine_json(m, res=None):
     """(canonical form of a place-and-route Machine, whether its resource dictionaries have the expected keys)"""
-    from rig.place_and_route import Cores, SDRAM, SRAM
-    ok_shape = (set(m.chip_resources) == {Cores, SDRAM, SRAM} and
-                all(set(r) == {Cores, SDRAM, SRAM} for r in m.chip_resource_exceptions.values()))
+    from rig.place_and_route.machine import Cores, SDRAM, SRAM
+    C, S, R = res or (Cores, SDRAM, SRAM)
+    ok_shape = (set(m.chip_resources) == {C, S, R} and
+                all(set(r) == {C, S, R} for r in m.chip_resource_exceptions.values()))
     mj = {"width": int(m.width), "height": int(m.height),
-          "cores": int(m.chip_resources.get(Cores, -1) if ok_shape else 0),
-          "sdram": int(m.chip_resources.get(SDRAM, 0)), "sram": int(m.chip_resources.get(SRAM, 0)),
-          "exceptions": sorted([int(x), int(y), int(r.get(Cores, 0)), int(r.get(SDRAM, 0)), int(r.get(SRAM, 0))]
+          "cores": int(m.chip_resources.get(C, -1) if ok_shape else 0),
+          "sdram": int(m.chip_resources.get(S, 0)), "sram": int(m.chip_resources.get(R, 0)),
+          "exceptions": sorted([int(x), int(y), int(r.get(C, 0)), int(r.get(S, 0)), int(r.get(R, 0))]
                                for (x, y), r in m.chip_resource_exceptions.items()),
           "dead_chips": sorted([int(x), int(y)] for x, y in m.dead_chips),
           "dead_links": sorted([int(x), int(y), int(l)] for x, y, l in m.dead_links)}
     return mj, ok_shape
 
 
-def derived_json(si, keep=None):
+def machine_views(m, queries, res, everything):
+    """Machine.__contains__ for chips and links, Machine.__getitem__, and (small machines) iter(machine) and
+    machine.iter_links()"""
+    from rig.links import Links
+    from rig.place_and_route.machine import Cores, SDRAM, SRAM
+    C, S, R = res or (Cores, SDRAM, SRAM)
+    answers = []
+    for x, y, l in queries:
+        try:
+            r = m[(x, y)]
+            r = [int(r[C]), int(r[S]), int(r[R])]
+        except IndexError:
+            r = None
+        answers.append([bool((x, y) in m), bool((x, y, Links(l)) in m), r])
+    out = {"answers": answers, "chips": [], "links": []}
+    if everything:
+        a, b = iter(m), m.iter_links()          # two lazy views advanced alternately
+        chips, links = [], []
+        while a is not None or b is not None:
+            for which in ("a", "b"):
+                it = a if which == "a" else b
+                if it is None:
+                    continue
+                try:
+                    v = next(it)
+                    (chips if which == "a" else links).append([int(q) for q in v])
+                except StopIteration:
+                    if which == "a":
+                        a = None
+                    else:
+                        b = None
+        out["chips"], out["links"] = sorted(chips), sorted(links)
+    return out
+
+
+def lazy_views(si, seed):
+    """the generators SystemInfo hands out, consumed lazily: advanced alternately, one abandoned half-way and
+    started again, the others resumed after other calls on the same description"""
+    import random
+    from rig.place_and_route.utils import build_machine
+    r = random.Random(seed)
+    names = ["dead_chips", "dead_links", "links", "cores"]
+    gens = {k: getattr(si, k)() for k in names}
+    gens.update({k + "'": getattr(si, k)() for k in names})     # a twin of every generator, advanced alternately
+    got = {k: [] for k in gens}
+    live = sorted(gens)
+    abandoned = r.choice(names)
+    steps = 0
+    while live:
+        k = r.choice(live)
+        try:
+            got[k].append(next(gens[k]))
+        except StopIteration:
+            live.remove(k)
+        steps += 1
+        if steps == 7:
+            build_machine(si)                   # other calls on the same description in between
+            (0, 0) in si
+            list(si.chips())
+        if steps == 11 and abandoned in live:
+            gens[abandoned] = getattr(si, abandoned)()      # abandoned half-way, a new one started
+            got[abandoned] = []
+    # twins must agree; if they do not, the shorter one is what gets judged
+    return {k: min(got[k], got[k + "'"], key=len) if sorted(got[k]) != sorted(got[k + "'"]) else got[k] for k in names}
+
+
+def derived_json(si, keep=None, opts=None):
+    """`derive_all` within a CPU-time limit; {"failed": ...} when a derivation raises or does not return (the Lean
+    models of all of them are total functions without error cases)"""
+    try:
+        return limited(lambda: derive_all(si, keep, opts), 6)
+    except common.ImplHang as e:
+        return {"failed": "DidNotReturn (%s)" % (e,)}
+    except Exception as e:      # noqa: reported as a finding by the caller
+        return {"failed": "Exception:%s: %s" % (type(e).__name__, e)}
+
+
+def derive_all(si, keep=None, opts=None):
     """everything the code derives from a SystemInfo (set-valued results sorted); the objects themselves are
-    put into `keep` when given"""
+    put into `keep` when given.  opts: "res" = kind of resource identifiers (passed by keyword or position),
+    "lazy" = seed for lazy consumption of the generators, "qkind" = kind of the integers in membership queries"""
     from rig.place_and_route.utils import build_machine, build_core_constraints
-    from rig.place_and_route import Cores
+    from rig.place_and_route.machine import Cores
     from rig.routing_table.utils import build_routing_table_target_lengths
-    m = build_machine(si)
-    mj, ok_shape = machine_json(m)
+    opts = opts or {}
+    res = resource_ids(opts.get("res", 0))
+    if res is None:
+        m = build_machine(si)
+        constraints = build_core_constraints(si)
+    elif opts.get("res_kw"):
+        m = build_machine(si, sram_resource=res[2], core_resource=res[0], sdram_resource=res[1])
+        constraints = build_core_constraints(si, core_resource=res[0])
+    else:
+        m = build_machine(si, res[0], res[1], res[2])
+        constraints = build_core_constraints(si, res[0])
+    mj, ok_shape = machine_json(m, res)
     cons = []
-    constraints = build_core_constraints(si)
     target_lengths = build_routing_table_target_lengths(si)
     if keep is not None:
-        keep.update(machine=m, constraints=constraints, target_lengths=target_lengths)
+        keep.update(machine=m, constraints=constraints, target_lengths=target_lengths, res=res)
     for c in constraints:
-        ok_shape = ok_shape and c.resource is Cores and c.reservation.step is None
+        ok_shape = ok_shape and c.resource is (res[0] if res else Cores) and c.reservation.step is None
         cons.append({"start": int(c.reservation.start), "stop": int(c.reservation.stop),
                      "chip": None if c.location is None else [int(c.location[0]), int(c.location[1])]})
-    qs = member_queries(si_json(si))
+    sj = si_json(si)
+    qs = member_queries(sj)
+    mq = [[q[1], q[2], q[3] % 6] for q in qs if q[0] == 1][:40] + [[x, y, (x + y) % 6] for x in range(3) for y in range(3)]
+    small = si.width * si.height <= 1024
+    if opts.get("lazy") is not None:
+        lz = lazy_views(si, opts["lazy"])
+    else:
+        lz = {"dead_chips": si.dead_chips(), "dead_links": si.dead_links(), "links": si.links(), "cores": si.cores()}
     return {"machine": mj, "constraints": cons, "shape_ok": bool(ok_shape),
-            "member_queries": qs, "member": member_answers(si, qs),
-            "dead_chips": sorted([int(x), int(y)] for x, y in si.dead_chips()),
-            "dead_links": sorted([int(x), int(y), int(l)] for x, y, l in si.dead_links()),
-            "links": sorted([int(x), int(y), int(l)] for x, y, l in si.links()),
-            "cores": [[int(x), int(y), int(p), int(s)] for x, y, p, s in si.cores()],
+            "member_queries": qs, "member": member_answers(si, qs, opts.get("qkind", "int")),
+            "machine_queries": mq, "machine_iter": small, "machine_views": machine_views(m, mq, res, small),
+            "dead_chips": sorted([int(x), int(y)] for x, y in lz["dead_chips"]),
+            "dead_links": sorted([int(x), int(y), int(l)] for x, y, l in lz["dead_links"]),
+            "links": sorted([int(x), int(y), int(l)] for x, y, l in lz["links"]),
+            "cores": [[int(x), int(y), int(p), int(s)] for x, y, p, s in lz["cores"]],
             "target_lengths": sorted([int(x), int(y), int(n)] for (x, y), n in target_lengths.items())}
 
 
@@ -342,7 +546,7 @@ def mutate_result(raw, op, seed):
 
 def mutate_derived(keep, r, log):
     """the caller edits the Machine / constraints / target lengths derived from a description"""
-    from rig.place_and_route import Cores
+    from rig.place_and_route.machine import Cores
     m = keep["machine"]
     for _ in range(r.randrange(1, 4)):
         k = r.randrange(7)
@@ -385,11 +589,14 @@ def member_queries(sj):
     return qs
 
 
-def member_answers(si, qs):
+def member_answers(si, qs, kind="int"):
     from rig.links import Links
     from rig.machine_control.consts import AppState
     out = []
     for k, x, y, a, b in qs:
+        x, y = as_kind(x, kind), as_kind(y, kind)
+        if k in (2, 3):
+            a = as_kind(a, kind)            # a core number that is a bool / an int subclass is still a core number
         try:
             if k == 0:
                 r = (x, y) in si
@@ -402,10 +609,19 @@ def member_answers(si, qs):
             out.append(bool(r))
         except IndexError:
             out.append("IndexError")
+        except Exception as e:      # noqa: an answer to be judged, not a harness failure
+            out.append("Exception:" + type(e).__name__)
     return out
 
 
 def membership_ok(si, state_chips):
+    try:
+        return membership_holds(si, state_chips)
+    except Exception:           # noqa: `in` raising for a documented form is a disagreement
+        return False
+
+
+def membership_holds(si, state_chips):
     """SystemInfo.__contains__ agrees with its own records (chip / link / core / core+state)"""
     from rig.links import Links
     from rig.machine_control.consts import AppState
@@ -480,8 +696,12 @@ def gen_template(rng):
             "eth_up": False, "ip": [0, 0, 0, 0], "eth_chip": [0, 0]}
 
 
-def gen_system(rng, big):
-    if big:
+def gen_system(rng, big, small=False):
+    if small:
+        w, h = rng.choice([1, 2, 3, 4, 6]), rng.choice([1, 2, 3, 5, 8, 9])
+        dens = rng.choice([0.5, 0.8, 1.0])
+        coords = {(x, y) for x in range(w) for y in range(h) if rng.random() < dens}
+    elif big:
         w, h = rng.choice([(255, 255), (255, 9), (3, 255), (200, 131), (255, 1), (1, 255)])
         shape = rng.choice(["thin_x", "thin_y", "corner"])
         coords = set()
@@ -530,6 +750,43 @@ def gen_system(rng, big):
             "buf": rng.choice([256, 256, 256, 128, 64, 512])}
 
 
+BIG_INTS = [2 ** 31 - 1, 2 ** 31, 2 ** 32, 2 ** 53 + 1, 2 ** 63, 2 ** 64, 2 ** 100]
+
+
+def gen_opts(rng):
+    """how the derivations are called: kind of resource identifiers (by position / keyword), lazy consumption of the
+    generators, kind of the integers in membership queries"""
+    return {"res": rng.choice([0, 0, 0, 1, 2, 3, 4, 5, 6]), "res_kw": rng.random() < 0.5,
+            "lazy": rng.randrange(1 << 30) if rng.random() < 0.4 else None,
+            "qkind": rng.choice(["int", "int", "bool", "enum"])}
+
+
+def gen_huge(rng):
+    """SCALE: a description far beyond the usual size - 1 x N, N x 1 or 2 x N with N in the thousands, nearly every
+    chip described, a few dead, a few busy cores, a few chips with other quantities"""
+    n = rng.choice([1000, 2047, 3000, 4097])
+    w, h = rng.choice([(1, n), (n, 1), (2, n // 2), (n // 2, 2)])
+    coords = [(x, y) for x in range(w) for y in range(h)]
+    dead = set(rng.sample(coords, rng.randrange(0, 25)))
+    tmpl = gen_template(rng)
+    odd = set(rng.sample(coords, 6))
+    chips = []
+    for xy in coords:
+        if xy in dead:
+            continue
+        st = [RUN] + [IDLE] * 17
+        cores, sdram, links = 18, tmpl["sdram"], list(range(6))
+        if xy in odd:
+            st[rng.randrange(1, 18)] = RUN
+            cores, sdram = rng.choice([17, 18]), rng.choice([tmpl["sdram"], 1])
+            links = sorted(rng.sample(range(6), 3))
+        chips.append({"x": xy[0], "y": xy[1], "num_cores": cores, "core_states": st[:cores], "links": links,
+                      "sdram": sdram, "sram": tmpl["sram"], "rtr": tmpl["rtr"], "eth_up": False, "ip": [0, 0, 0, 0],
+                      "eth_chip": [0, 0]})
+    return {"kind": "direct", "width": w, "height": h, "chips": chips, "huge": True, "opts": gen_opts(rng),
+            "si_kind": "plain", "links_kind": "set", "states_kind": "list"}
+
+
 def gen_direct(rng, big):
     if big:
         w, h = rng.choice([(256, 256), (256, 2), (3, 256), (100, 100)])
@@ -553,7 +810,17 @@ def gen_direct(rng, big):
         # a record with fewer states than cores: `(x, y, p, state) in si` raises IndexError for the missing ones
         ch = chips[rng.randrange(min(len(chips), 8))]
         ch["core_states"] = ch["core_states"][:max(0, len(ch["core_states"]) - rng.randrange(1, 4))]
-    return {"kind": "direct", "width": w, "height": h, "chips": chips}
+    if chips and rng.random() < 0.15:
+        # quantities are unbounded Python ints in a description built by the caller
+        for ch in rng.sample(chips, min(len(chips), 3)):
+            ch[rng.choice(["sdram", "sram", "rtr", "num_cores"])] = rng.choice(BIG_INTS) + rng.choice([-1, 0, 1])
+    return {"kind": "direct", "width": w, "height": h, "chips": chips, "opts": gen_opts(rng),
+            # the description is a SystemInfo / an instance of a subclass of it, built from a dict / a list of pairs / a
+            # one-shot iterator of pairs / keyword width and height; records are ChipInfo / a subclass, their link
+            # collections sets / frozensets, their state sequences lists / tuples
+            "si_kind": rng.choice(["plain", "plain", "subclass", "pairs", "iterator", "keywords"]),
+            "links_kind": rng.choice(["set", "frozenset"]), "states_kind": rng.choice(["list", "tuple"]),
+            "ci_subclass": rng.random() < 0.3}
 
 
 def gen_chip(rng):
@@ -581,22 +848,24 @@ def ascii_text(rng, n, alphabet=b"abcXYZ 019_-/&.\t"):
     return [rng.choice(alphabet) for _ in range(n)]
 
 
-def gen_blocks(rng, size, ascii_only=False):
-    nblocks = rng.choice([0, 1, 1, 2, 3, 4])
+def gen_blocks(rng, size, ascii_only=False, nblocks=None):
+    if nblocks is None:
+        nblocks = rng.choice([0, 1, 1, 2, 3, 4])
     blocks = []
     for i in range(nblocks):
         ln = rng.choice([0, 1, size - 1, size, size, rng.randrange(size + 1), size + 5, 2 ** 32 - 1])
         data = ascii_text(rng, size) if ascii_only or rng.random() < 0.8 else [rng.randrange(256) for _ in range(size)]
-        blocks.append({"addr": 0x60000000 + 0x100000 * i + 4 * rng.randrange(1, 1000), "time": edge(rng, 2 ** 32),
+        blocks.append({"addr": 0x60000000 + (0x100000 if nblocks < 100 else 0x4000) * i + 4 * rng.randrange(1, 1000),
+                       "time": edge(rng, 2 ** 32),
                        "ms": edge(rng, 2 ** 32), "len": ln, "data": data})
     rng.shuffle(blocks)
     return blocks
 
 
-def gen_core(rng, size=None, session=False):
+def gen_core(rng, size=None, session=False, nblocks=None):
     if size is None:
         size = rng.choice([4, 16, 60, 252, 256, 1000, 16384]) if rng.random() < 0.9 else 4 * rng.randrange(1, 200)
-    blocks = gen_blocks(rng, size, ascii_only=session and rng.random() < 0.8)
+    blocks = gen_blocks(rng, size, ascii_only=session and rng.random() < 0.8, nblocks=nblocks)
     name = ascii_text(rng, rng.choice([0, 1, 5, 15, 16]), b"abcdefXYZ_0189")
     st = {"registers": [edge(rng, 2 ** 32) for _ in range(8)], "program_state_register": edge(rng, 2 ** 32),
           "stack_pointer": edge(rng, 2 ** 32), "link_register": edge(rng, 2 ** 32),
@@ -704,16 +973,17 @@ def lay(req, c, variant):
     return req
 
 
-def new_controller(net, variant):
+def new_controller(net, variant, n_tries=3, timeout=2.0):
     if not variant:
-        return simmachine.make_controller(net, n_tries=3, timeout=2.0)
+        return simmachine.make_controller(net, n_tries=n_tries, timeout=timeout)
     from rig.machine_control.machine_controller import MachineController
-    return MachineController("sim", n_tries=3, timeout=2.0, structs=rig_structs(variant))
+    return MachineController("sim", n_tries=n_tries, timeout=timeout, structs=rig_structs(variant))
 
 
 # --------------------------------------------------------------------------- sessions
-SESSION_OPS = ["iobuf_bytes", "iobuf", "status", "chip_info", "diag", "p2p", "system_info", "sv", "vcpu"]
+SESSION_OPS = ["iobuf_bytes", "iobuf", "status", "chip_info", "diag", "p2p", "system_info", "sv", "vcpu", "links", "sver"]
 SESSION_FAMILIES = [["iobuf_bytes", "iobuf"], ["iobuf_bytes", "iobuf"], ["status", "vcpu"], ["chip_info", "system_info"],
+                    ["chip_info", "links"], ["sver"],
                     ["diag"], ["p2p", "system_info"], ["sv"], ["vcpu", "iobuf_bytes"]]
 SESSION_SIZES = [4, 16, 60, 64, 128, 252, 256, 1000]
 STRUCT_OPS = ["iobuf_bytes", "status", "vcpu", "sv", "p2p", "system_info"]      # probes that read struct fields
@@ -755,6 +1025,7 @@ def gen_epoch(rng, coords, size, vbase, tmpl, clear):
         p2p[(0, 0)] = 1
     e["p2p"] = {"dim_w": w, "dim_h": h, "p2p": sorted([x, y, r] for (x, y), r in p2p.items())}
     e["clear"] = clear
+    e["sver"] = gen_sver(rng)        # this chip's software answers `sver` with its own name / version / buffer size
     return e
 
 
@@ -861,8 +1132,26 @@ def gen_session(rng):
                 st["ctl"] = 0 if st["chip"] % len(pool) == 0 else 1
             elif "ctl" not in st and rng.random() < 0.3:
                 st["ctl"] = 1
+    # the same call repeated at once
+    if rng.random() < 0.3:
+        j = rng.randrange(len(steps))
+        steps.insert(j + 1, dict({k: v for k, v in steps[j].items() if k not in ("mutate", "fault")}, set=[], mut=None))
+    for st in steps:
+        # calling convention and kind of the integer arguments
+        st["style"] = rng.choice(["pos", "pos", "kw", "ctx"])
+        st["kind"] = rng.choice(["int", "int", "np", "bool", "enum"])
+        # the network fails once during the probe: one datagram lost (the retry gets through), a command and all its
+        # retries lost, or an error reply - and the controller is used again afterwards
+        if rng.random() < 0.12 and "fault" not in st and not st.get("after_fault"):
+            st["fault"] = [rng.choice(["lose1", "loseall", "loseall", "rc"]), rng.choice([0, 1, 2, 3] + list(range(12)))]
+    # after a probe during which the network failed, the caller usually makes the same call again on the same controller
+    for j in range(len(steps) - 1, -1, -1):
+        if "fault" in steps[j] and rng.random() < 0.7:
+            steps.insert(j + 1, dict({k: v for k, v in steps[j].items() if k not in ("mutate", "fault")},
+                                     set=[], mut=None, after_fault=True))
     return {"kind": "session", "chips": chips, "steps": steps, "root": rng.randrange(n),
-            "buf": rng.choice([256, 256, 128, 64, 512]), "explicit_default": rng.random() < 0.5}
+            "buf": rng.choice([256, 256, 128, 64, 512]), "explicit_default": rng.random() < 0.5,
+            "n_tries": [rng.choice([1, 2, 3, 5]), rng.choice([2, 3, 4])], "timeout": rng.choice([1.0, 2.0, 5.0])}
 
 
 def gen_sver(rng):
@@ -888,15 +1177,44 @@ def gen_sver(rng):
 
 
 # --------------------------------------------------------------------------- evaluation
-def mk_chipinfo(c):
+def mk_chipinfo(c, case=None):
     from rig.machine_control.machine_controller import ChipInfo
     from rig.machine_control.consts import AppState
     from rig.links import Links
-    return ChipInfo(num_cores=c["num_cores"], core_states=[AppState(s) for s in c["core_states"]],
-                    working_links=set(Links(l) for l in c["links"]), largest_free_sdram_block=c["sdram"],
-                    largest_free_sram_block=c["sram"], largest_free_rtr_mc_block=c["rtr"],
-                    ethernet_up=c["eth_up"], ip_address=".".join(map(str, c["ip"])),
-                    local_ethernet_chip=tuple(c["eth_chip"]))
+    case = case or {}
+    cls = ChipInfo
+    if case.get("ci_subclass"):
+        class MyChipInfo(ChipInfo):
+            """the caller's own subclass of the record type"""
+            __slots__ = ()
+        cls = MyChipInfo
+    links = (frozenset if case.get("links_kind") == "frozenset" else set)(Links(l) for l in c["links"])
+    states = (tuple if case.get("states_kind") == "tuple" else list)(AppState(s) for s in c["core_states"])
+    return cls(num_cores=c["num_cores"], core_states=states, working_links=links,
+               largest_free_sdram_block=c["sdram"], largest_free_sram_block=c["sram"],
+               largest_free_rtr_mc_block=c["rtr"], ethernet_up=c["eth_up"], ip_address=".".join(map(str, c["ip"])),
+               local_ethernet_chip=tuple(c["eth_chip"]))
+
+
+def mk_sysinfo(c):
+    """the description of a `direct` case, built the way the case says"""
+    from rig.machine_control.machine_controller import SystemInfo
+    pairs = [((ch["x"], ch["y"]), mk_chipinfo(ch, c)) for ch in c["chips"]]
+    kind = c.get("si_kind", "plain")
+    if kind == "subclass":
+        class MySystemInfo(SystemInfo):
+            """the caller's own subclass of the description type"""
+            note = "mine"
+        return MySystemInfo(c["width"], c["height"], dict(pairs))
+    if kind == "pairs":
+        return SystemInfo(c["width"], c["height"], pairs)
+    if kind == "iterator":
+        return SystemInfo(c["width"], c["height"], iter(pairs))
+    if kind == "keywords":
+        si = SystemInfo(height=c["height"], width=c["width"])
+        si.update(pairs)
+        return si
+    return SystemInfo(c["width"], c["height"], dict(pairs))
 
 
 def state_only(c):
@@ -928,7 +1246,7 @@ _TAINTED = [None]      # key of the first finding that results depend on the his
 LAYOUT_OPS = ("iobuf", "status", "p2p_table", "system_info", "sv_field", "vcpu_field")
 CORE_FIELDS = ("p", "vcpu_base", "iobuf_size", "status", "sw_top", "name16", "pad", "blocks", "diag")
 SESSION_KEYS = {"iobuf": "iobuf-wrong", "iobuf_bytes": "iobuf-wrong", "status": "status-wrong",
-                "chip_info": "chip-info-wrong", "diag": "router-counters-wrong", "p2p": "system-info-wrong",
+                "chip_info": "chip-info-wrong", "links": "chip-info-wrong", "sver": "version-wrong", "diag": "router-counters-wrong", "p2p": "system-info-wrong",
                 "system_info": "system-info-wrong", "sv": "struct-field-wrong", "vcpu": "struct-field-wrong"}
 
 
@@ -941,6 +1259,14 @@ def session_spec_reqs(L, c):
             yield ("img", ci, ek, "info"), L("spec_info", **e["info"])
             yield ("img", ci, ek, "p2p"), lay(L("spec_p2p", chips=[], **e["p2p"]), c, v)
             yield ("img", ci, ek, "sv"), lay(L("spec_sv", fields=e["sv"]), c, v)
+            if "sver" in e:
+                sv = dict(e["sver"], x=ch["x"], y=ch["y"])
+                if sv["legacy"]:
+                    yield ("img", ci, ek, "sver"), L("spec_sver_legacy", **{f: sv[f] for f in (
+                        "x", "y", "pcpu", "vcpu", "buf", "date", "major", "minor", "name")})
+                else:
+                    yield ("img", ci, ek, "sver"), L("spec_sver_string", **{f: sv[f] for f in (
+                        "x", "y", "pcpu", "vcpu", "buf", "date", "name", "ma", "mi", "pa", "labels")})
 
 
 def session_image(w, ci, ek):
@@ -948,14 +1274,25 @@ def session_image(w, ci, ek):
     return im["core"]["mem"] + im["p2p"]["mem"] + im["sv"]["mem"]
 
 
+def sver_core(e):
+    """the core whose `sver` answer the epoch defines (never core 0 of a chip: the controller asks the root chip's
+    core 0 for the machine's SCP buffer size)"""
+    return e["p"] or 1
+
+
 def session_apply(m, c, w, ci, ek):
     ch = c["chips"][ci]
     xy = (ch["x"], ch["y"])
-    if ch["epochs"][ek]["clear"]:
+    e = ch["epochs"][ek]
+    if e["clear"]:
         m.mem[xy] = {}                      # re-boot: nothing of the previous life remains
+        for k in [k for k in m.sver if k[:2] == xy]:
+            del m.sver[k]
     for addr, data in session_image(w, ci, ek):
         m.poke(xy[0], xy[1], addr, bytes(data))
     m.info[xy] = w["img"][(ci, ek)]["info"]
+    if "sver" in w["img"][(ci, ek)]:
+        m.sver[xy + (sver_core(e),)] = w["img"][(ci, ek)]["sver"]
 
 
 def session_op(c, w, st, cur):
@@ -967,45 +1304,78 @@ def session_op(c, w, st, cur):
 
 
 def session_probe(mc, c, w, st, cur):
-    """(canonical result, the object the probe returned)"""
+    """(canonical result, the object the probe returned, canonicaliser); the call is made in the step's calling
+    convention (positional / keyword / contextual arguments) with its integer arguments in the step's kind"""
     ch = c["chips"][st["chip"]]
-    x, y = ch["x"], ch["y"]
-    p = ch["epochs"][cur[st["chip"]]]["p"]
+    kind, style = st.get("kind", "int"), st.get("style", "pos")
+    x, y = as_kind(ch["x"], kind), as_kind(ch["y"], kind)
+    p = as_kind(ch["epochs"][cur[st["chip"]]]["p"], kind)
     op = session_op(c, w, st, cur)
+
+    def call(name, lead, with_p, **extra):
+        """mc.<name>(*lead, [p], x, y) in the documented order"""
+        f = getattr(mc, name)
+        if style == "kw":
+            kw = dict(x=x, y=y, **extra)
+            if with_p:
+                kw[with_p] = p
+            return f(*lead, **kw)
+        if style == "ctx":
+            kw = dict(x=x, y=y)
+            if with_p == "p":
+                kw["p"] = p
+                with mc(**kw):
+                    return f(*lead, **extra)
+            with mc(**kw):
+                return f(*lead, **dict(extra, **({with_p: p} if with_p else {})))
+        return None
+
     if op == "iobuf_bytes":
-        raw = mc.get_iobuf_bytes(p, x, y)
-        return list(raw), raw
+        raw = call("get_iobuf_bytes", (), "p") if style != "pos" else mc.get_iobuf_bytes(p, x, y)
+        return list(raw), raw, list
     if op == "iobuf":
-        raw = mc.get_iobuf(p, x, y)
-        return list(raw.encode("utf-8")), raw
+        raw = call("get_iobuf", (), "p") if style != "pos" else mc.get_iobuf(p, x, y)
+        return list(raw.encode("utf-8")), raw, lambda r: list(r.encode("utf-8"))
     if op == "status":
-        raw = mc.get_processor_status(p, x, y)
-        return status_json(raw), raw
+        raw = call("get_processor_status", (), "p") if style != "pos" else mc.get_processor_status(p, x, y)
+        return status_json(raw), raw, status_json
     if op == "chip_info":
-        raw = mc.get_chip_info(x, y)
-        return ci_json(raw), raw
+        raw = call("get_chip_info", (), None) if style != "pos" else mc.get_chip_info(x, y)
+        return ci_json(raw), raw, ci_json
+    if op == "links":
+        raw = call("get_working_links", (), None) if style != "pos" else mc.get_working_links(x, y)
+        return sorted(int(l) for l in raw), raw, lambda r: sorted(int(l) for l in r)
     if op == "diag":
-        raw = mc.get_router_diagnostics(x, y)
-        return [int(v) for v in raw], raw
+        raw = call("get_router_diagnostics", (), None) if style != "pos" else mc.get_router_diagnostics(x, y)
+        return [int(v) for v in raw], raw, lambda r: [int(v) for v in r]
     if op == "p2p":
-        raw = mc.get_p2p_routing_table(x, y)
-        return sorted([int(k[0]), int(k[1]), int(v)] for k, v in raw.items()), raw
+        raw = call("get_p2p_routing_table", (), None) if style != "pos" else mc.get_p2p_routing_table(x, y)
+        canon = lambda r: sorted([int(k[0]), int(k[1]), int(v)] for k, v in r.items())  # noqa: E731
+        return canon(raw), raw, canon
     if op == "system_info":
-        raw = mc.get_system_info(x, y)
-        return si_json(raw), raw
+        raw = call("get_system_info", (), None) if style != "pos" else mc.get_system_info(x, y)
+        return si_json(raw), raw, si_json
+    if op == "sver":
+        p = as_kind(sver_core(ch["epochs"][cur[st["chip"]]]), kind)
+        raw = call("get_software_version", (), "processor") if style != "pos" else mc.get_software_version(x, y, p)
+        return coreinfo_json(raw), raw, coreinfo_json
     if op == "sv":
-        raw = mc.read_struct_field("sv", st["name"], x, y)
-        return int(raw), raw
+        # the optional core number of read_struct_field gets a non-default value in the keyword / context styles
+        raw = (call("read_struct_field", ("sv", st["name"]), "p") if style != "pos"
+               else mc.read_struct_field("sv", st["name"], x, y))
+        return int(raw), raw, int
     if op == "vcpu":
-        raw = mc.read_vcpu_struct_field(st["name"], x, y, p)
-        return int(raw), raw
+        raw = (call("read_vcpu_struct_field", (st["name"],), "p") if style != "pos"
+               else mc.read_vcpu_struct_field(st["name"], x, y, p))
+        return int(raw), raw, int
     raise KeyError(op)
 
 
 def run_session(c, w, only=None):
     """the session on ONE controller (steps with "ctl": 1 on a second one), the caller editing the returned object
-    after steps that say so; or, with `only`, the machine brought to the state of step `only` and that single probe
-    made by a fresh controller.  Returns results, the epoch of every chip at each step, and the edits made"""
+    after steps that say so, the network failing during steps that say so; or, with `only`, the machine brought to
+    the state of step `only` and that single probe made by a fresh controller.  Returns results, the epoch of every
+    chip at each step, and the edits made; w["kept_changed"] lists results that changed after they were returned"""
     root = c["chips"][c["root"]]
     m = ProbeMachine(root=(root["x"], root["y"]), buffer_size=c["buf"])
     cur = [0] * len(c["chips"])
@@ -1013,7 +1383,8 @@ def run_session(c, w, only=None):
         session_apply(m, c, w, ci, 0)
     budget = Budget()
     net = simnet.Net(m.handle, budget)
-    out, snaps, edits = [], [], []
+    out, snaps, edits, kept, faults = [], [], [], [], []
+    tries = c.get("n_tries", [3, 3])
     with simnet.installed(net):
         mcs, ctl_layout, restructs = {}, {}, [0]
         for k, st in enumerate(c["steps"]):
@@ -1022,30 +1393,42 @@ def run_session(c, w, only=None):
                 cur[ci] = ek
             snaps.append(list(cur))
             edits.append([])
+            faults.append(False)
             if only is None or only == k:
                 ctl = st.get("ctl", 0) if only is None else "fresh"
                 v = c["chips"][st["chip"]]["epochs"][cur[st["chip"]]].get("layout", 0)
+                n_tries = tries[ctl] if ctl in (0, 1) else 3
                 if ctl not in mcs:
-                    mcs[ctl] = new_controller(net, v)          # MachineController(..., structs=<that layout>)
+                    mcs[ctl] = new_controller(net, v, n_tries, c.get("timeout", 2.0))   # structs=<that layout>
                     ctl_layout[ctl] = v
                 elif ctl_layout[ctl] != v:
                     mcs[ctl].structs = rig_structs(v)          # what boot() does with the booted image's definitions
                     ctl_layout[ctl] = v
                     restructs[0] += 1
-                budget.reset()
+                plan = st.get("fault") if only is None else None
+                if plan and plan[0] == "loseall":
+                    plan = plan[:2] + [n_tries]
+                budget.reset(plan)
                 res = guard(lambda: limited(lambda: session_probe(mcs[ctl], c, w, st, cur)))
+                faults[-1] = budget.hit
                 if "ok" in res:
-                    canon, raw = res["ok"]
+                    canon, raw, fn = res["ok"]
                     res = {"ok": canon}
                     if only is None and st.get("mutate") is not None:
                         edits[-1] = mutate_result(raw, session_op(c, w, st, cur), st["mutate"])
+                    elif only is None:
+                        kept.append((k, raw, fn, canon))       # the caller keeps what it was given
                 out.append(res)
             else:
                 out.append(None)
             if only == k:
                 break
+        if only is None:
+            # everything the caller kept (and did not edit itself) is still what it was when it was returned
+            w["kept_changed"] = [(k, before, fn(raw)) for k, raw, fn, before in kept if fn(raw) != before]
     if only is None:
         w["restructs"] = restructs[0]
+        w["faults"] = faults
     return out, snaps, edits
 
 
@@ -1071,6 +1454,11 @@ def session_reqs(L, c, w, k, cur, impl):
         model, oracle, okey = L("diag", mem=mem), L("core_ok", got_diag=got, **core), "diag"
     elif op == "chip_info":
         model, oracle = L("dec_info", **im["info"]), L("info_ok", state=e["info"], got=got)
+    elif op == "links":
+        model, oracle, okey = L("dec_info", **im["info"]), L("spec_view", **e["info"]), ("links", got)
+    elif op == "sver":
+        model = L("dec_sver", **im["sver"])
+        oracle = L("sver_ok", got=got, **{f: v for f, v in dict(e["sver"], x=ch["x"], y=ch["y"]).items() if f != "kind"})
     elif op == "p2p":
         model, oracle = L("p2p_table", mem=mem), L("p2p_ok", state=dict(e["p2p"], chips=[]), got=got)
     elif op == "system_info":
@@ -1102,9 +1490,10 @@ def probe_in_new_process(c, w, k):
     with tempfile.NamedTemporaryFile("w", suffix=".json", delete=False) as f:
         json.dump({"c": c, "k": k, "img": [[ci, ek, v] for (ci, ek), v in w["img"].items()]}, f)
     try:
-        out = subprocess.run([sys.executable, "-c", "import sys; sys.path.insert(0, %r); from harness import c14; "
-                              "c14._child(%r)" % (common.VERIF, f.name)], cwd=common.VERIF, capture_output=True,
-                             text=True, timeout=120)
+        out = subprocess.run([sys.executable, "-c", "import sys; sys.path.insert(0, %r); sys.path.insert(0, %r); "
+                              "from harness import c14; c14._child(%r)" % (common.VERIF, common.REPO, f.name)],
+                             cwd=common.VERIF, capture_output=True, text=True, timeout=120,
+                             env=dict(os.environ, RIG_REPO=common.REPO))
         return json.loads(out.stdout.strip().splitlines()[-1])
     except Exception as e:      # noqa: no verdict from a failed helper
         return {"err": "child failed: %s" % (e,)}
@@ -1128,6 +1517,8 @@ def session_layouts(c, w, k):
 def session_model_norm(op, model):
     if "ok" not in model:
         return model
+    if op == "links":
+        return {"ok": model["ok"]["links"]}
     if op == "p2p":
         return {"ok": sorted(model["ok"])}
     if op == "system_info":
@@ -1136,6 +1527,8 @@ def session_model_norm(op, model):
 
 
 def session_verdict(r, okey):
+    if isinstance(okey, tuple):             # the Lean specification's view of the chip, field okey[0], is okey[1]
+        return r is not None and r[okey[0]] == okey[1]
     return r is not None and (r[okey] if okey else r) is True
 
 
@@ -1148,10 +1541,20 @@ def judge_session(ctx, c, w):
         op = session_op(c, w, st, cur)
         impl = w["impl"][k]
         ctx.traces += 1
-        ctx.tag("session_op_" + op, "session_mut_%s" % st["mut"])
+        ctx.tag("session_op_" + op, "session_mut_%s" % st["mut"], "session_style_" + st.get("style", "pos"),
+                "session_kind_" + st.get("kind", "int"))
         probed.add(st["chip"])
-        cmp(ctx, "session." + op, impl, session_model_norm(op, w[("sess", k, "model")]), c)
         ok = "ok" in impl and session_verdict(w.get(("sess", k, "oracle")), w[("sess", k, "okey")])
+        if w["faults"][k]:
+            mode = st["fault"][0]
+            if mode == "lose1" and c.get("n_tries", [3, 3])[st.get("ctl", 0)] > 1:
+                ctx.tag("session_fault_lose1_retried")         # the retry gets through: judged like any probe
+            else:
+                # a command failed for good: the probe may raise SCPError (get_system_info instead treats a chip
+                # that does not answer as dead); only the probes AFTER it are judged
+                ctx.tag("session_fault_%s_%s" % (mode, "right" if ok else impl.get("err", "other-result")))
+                continue
+        cmp(ctx, "session." + op, impl, session_model_norm(op, w[("sess", k, "model")]), c)
         if not ok and first_bad is None:
             first_bad = k
     ctx.tag("session_steps_%d" % len(c["steps"]), "session_chips_%d" % len(probed))
@@ -1162,7 +1565,20 @@ def judge_session(ctx, c, w):
         ctx.tag("session_two_controllers")
     nlay = len(set(session_layouts(c, w, len(c["steps"]) - 1)))
     ctx.tag("session_layouts_%d" % nlay, "session_restruct" if w.get("restructs") else "session_no_restruct")
-    if first_bad is not None:
+    if w["kept_changed"] and first_bad is None:
+        k, before, after = w["kept_changed"][0]
+        ctx.violation(_TAINTED[0] or "kept-result-changed",
+                      "the result of step %d (%s), kept by the caller and never edited by it, was %.300r when it was "
+                      "returned and is %.300r after the later probes of the session" % (
+                          k, session_op(c, w, c["steps"][k], w["snaps"][k]), before, after), c)
+    if first_bad is not None and str(w["impl"][first_bad].get("err", "")).startswith("DidNotReturn") and not _TAINTED[0]:
+        k = first_bad
+        st = c["steps"][k]
+        ctx.violation("did-not-return", "step %d: %s on chip (%d, %d) did not return: %s (the Lean model of the probe "
+                      "is a total function and returns %.200r)" % (
+                          k, session_op(c, w, st, w["snaps"][k]), c["chips"][st["chip"]]["x"],
+                          c["chips"][st["chip"]]["y"], w["impl"][k]["err"], w[("sess", k, "model")]), c)
+    elif first_bad is not None:
         k = first_bad
         st = c["steps"][k]
         cur = w["snaps"][k]
@@ -1214,7 +1630,7 @@ def judge_session(ctx, c, w):
                               "single probe in a new process returns the machine's values" % (
                                   what, session_layouts(c, w, k)[-1], before, session_layouts(c, w, k)[:-1], fresh), c)
             elif "err" in impl:
-                ctx.violation("unexpected-error", what, c)
+                ctx.violation(err_key(what), what, c)
             else:
                 ctx.violation(SESSION_KEYS[op], what + " - not the machine's values", c)
     return len(probed) >= 2
@@ -1225,7 +1641,7 @@ def gen_derive(rng):
     """a machine, two controllers, and a script: probe (get_system_info or get_machine), derive (build_machine,
     build_core_constraints, target lengths, membership, dead sets), the caller editing the description or the
     derived objects in place, deriving and probing again"""
-    c = gen_system(rng, False)
+    c = gen_system(rng, False, small=rng.random() < 0.8)
     # chips that do not answer are simply absent from "chips" here
     c["kind"], c["silent"], c["rc_chips"] = "derive", [], []
     script = [{"act": "probe", "ctl": 0, "via": "system_info"}]
@@ -1249,6 +1665,8 @@ def gen_derive(rng):
     c["layout"] = rng.choice(sorted(LAYOUT_FLAGS)[1:]) if rng.random() < 0.4 else 0
     c["preboot"] = (rng.randrange(1, 9) * 256 + rng.randrange(1, 9)) if c["layout"] else None
     c["explicit_default"] = rng.random() < 0.5
+    c["opts"] = gen_opts(rng)
+    c["n_tries"] = [rng.choice([2, 3, 5]), rng.choice([1, 3])]
     return c
 
 
@@ -1267,11 +1685,14 @@ def run_derive(c, w):
     net = simnet.Net(m.handle, budget)
     recs = []
     si, keep = None, None
+    kept = []           # [step, object, canonicaliser, canonical form when returned]: what the caller keeps unedited
+    opts = c.get("opts")
+    tries = c.get("n_tries", [3, 3])
     with simnet.installed(net):
         mcs = {}
         if pre is not None:
             for ctl in (0, 1):
-                mcs[ctl] = new_controller(net, 0)
+                mcs[ctl] = new_controller(net, 0, tries[ctl])
                 budget.reset()
                 rec = guard(lambda: limited(lambda: int(mcs[ctl].read_struct_field("sv", "p2p_dims", *root))))
                 recs.append(dict(rec, act="preboot", ctl=ctl))
@@ -1284,18 +1705,22 @@ def run_derive(c, w):
             rec = {"act": a["act"]}
             if a["act"] == "probe":
                 if a["ctl"] not in mcs:
-                    mcs[a["ctl"]] = new_controller(net, v)
+                    mcs[a["ctl"]] = new_controller(net, v, tries[a["ctl"]])
                 mc = mcs[a["ctl"]]
                 budget.reset()
                 if a["via"] == "machine":
                     import warnings
                     with warnings.catch_warnings():
                         warnings.simplefilter("ignore")
+                        # the ignored `default_num_cores` gets a value, by position or by keyword
                         res = guard(lambda: limited(
-                            lambda: mc.get_machine(*root) if c["explicit_start"] else mc.get_machine()))
+                            lambda: (mc.get_machine(root[0], root[1], 7) if a["ctl"] else
+                                     mc.get_machine(y=root[1], x=root[0], default_num_cores=0))
+                            if c["explicit_start"] else mc.get_machine()))
                     if "ok" in res:
-                        keep = {"machine": res["ok"], "constraints": [], "target_lengths": {}}
+                        keep = {"machine": res["ok"], "constraints": [], "target_lengths": {}, "res": None}
                         mj, shape = machine_json(res["ok"])
+                        kept.append([len(recs), res["ok"], lambda o: machine_json(o)[0], mj])
                         res = {"ok": mj, "shape_ok": shape}
                 else:
                     res = guard(lambda: limited(
@@ -1303,20 +1728,36 @@ def run_derive(c, w):
                     if "ok" in res:
                         si = res["ok"]
                         res = {"ok": si_json(si)}
+                        kept.append([len(recs), si, si_json, res["ok"]])
                 rec.update(res, via=a["via"], ctl=a["ctl"])
             elif si is None:
                 rec["act"] = "skip"         # nothing was ever probed successfully (already reported)
             elif a["act"] == "derive":
                 keep = {}
-                rec.update(sysinfo=si_json(si), derived=derived_json(si, keep), member_ok=membership_ok(si, c["chips"]))
+                rec.update(sysinfo=si_json(si), derived=derived_json(si, keep, opts),
+                           member_ok=membership_ok(si, c["chips"]))
+                if "failed" not in rec["derived"]:
+                    res_ids = keep["res"]
+                    kept.append([len(recs), keep["machine"], lambda o, r=res_ids: machine_json(o, r)[0],
+                                 rec["derived"]["machine"]])
+                    kept.append([len(recs), keep["target_lengths"],
+                                 lambda o: sorted([int(x), int(y), int(n)] for (x, y), n in o.items()),
+                                 rec["derived"]["target_lengths"]])
+                else:
+                    keep = None
             elif a["act"] == "edit_si":
                 rec["edits"] = []
+                kept[:] = [e for e in kept if e[1] is not si]               # the caller edits it: no longer "kept"
                 mutate_sysinfo(si, random.Random(a["seed"]), rec["edits"])
             else:
                 rec["edits"] = []
                 if keep:
+                    kept[:] = [e for e in kept if e[1] is not keep["machine"] and e[1] is not keep["target_lengths"]]
                     mutate_derived(keep, random.Random(a["seed"]), rec["edits"])
             recs.append(rec)
+        changed = [(k, before, fn(o)) for k, o, fn, before in kept if fn(o) != before]
+    if changed:
+        recs.append({"act": "kept", "changed": changed[0]})
     return recs
 
 
@@ -1370,13 +1811,22 @@ def eval_derive(ctx, cases):
 
 
 def judge_derive(ctx, c, w):
-    ctx.tag("kind_derive")
+    ctx.tag("kind_derive", "derive_res_%d" % (c.get("opts") or {}).get("res", 0),
+            "derive_lazy" if (c.get("opts") or {}).get("lazy") is not None else "derive_eager",
+            "derive_qkind_" + (c.get("opts") or {}).get("qkind", "int"))
     edits = []          # edits by the caller since the last step that was judged right
+    right = set()       # kinds of step (probe / derive) that were judged right before
     right_before = False
     nontriv = False
     for k, rec in enumerate(w["recs"]):
         n0 = len(ctx.concrete)
         if rec["act"] == "skip":
+            continue
+        if rec["act"] == "kept":
+            kk, before, after = rec["changed"]
+            ctx.violation(_TAINTED[0] or "kept-result-changed",
+                          "the result of step %d, kept by the caller and never edited by it, was %.300r when it was "
+                          "returned and is %.300r at the end of the script" % (kk, before, after), c)
             continue
         if rec["act"] in ("edit_si", "edit_derived"):
             edits += rec["edits"]
@@ -1401,17 +1851,17 @@ def judge_derive(ctx, c, w):
             elif "ok" in rec and "model_machine" in rec:
                 cmp(ctx, "derive.get_machine", rec["ok"], sort_machine(rec["model_machine"]), c)
             if "err" in rec:
-                ctx.violation("unexpected-error", what, c)
+                ctx.violation(err_key(what), what, c)
             elif rec.get("oracle") is not True or rec.get("shape_ok") is False:
                 ctx.violation("system-info-wrong" if rec["via"] == "system_info" else "machine-model-wrong",
                               what + " - not the machine's chips, links and quantities", c)
         else:
-            ws = {"derived": rec["derived"], "impl": {"ok": {"sysinfo": rec["sysinfo"]}}, "member_ok": rec["member_ok"],
-                  "model_machine": rec["model_machine"], "model_constraints": rec["model_constraints"],
-                  "model_member": rec["model_member"], "oracle_dead": rec["oracle_dead"],
-                  "oracle_machine": rec["oracle_machine"], "oracle_res": rec["oracle_res"]}
+            ws = dict({k2: rec.get(k2) for k2 in ("model_machine", "model_constraints", "model_member", "model_views",
+                                                   "oracle_dead", "oracle_machine", "oracle_res")},
+                      derived=rec["derived"], impl={"ok": {"sysinfo": rec["sysinfo"]}}, member_ok=rec["member_ok"])
             nontriv = judge_derived(ctx, c, ws, c) or nontriv
         new = ctx.concrete[n0:]
+        right_before = ("probe" if rec["act"] in ("probe", "preboot") else "derive") in right
         if new and (edits and right_before or _TAINTED[0]):
             # right until the caller edited objects it had been given, wrong afterwards
             del ctx.concrete[n0:]
@@ -1425,12 +1875,17 @@ def judge_derive(ctx, c, w):
                 ctx.violation(_TAINTED[0], "%s [%s] - after an earlier case of this run showed that results depend on "
                               "the history of the process" % (what0, key0), c)
         if not new:
-            right_before = True
+            right.add("probe" if rec["act"] in ("probe", "preboot") else "derive")
             edits = []
     ctx.case(c, nontriv)
 
 
 def eval_cases(ctx, cases):
+    for c in [c for c in cases if c["kind"] == "histories"]:
+        # a replay that carries the histories that ran before the failing one in the same process
+        for sub in c["cases"]:
+            eval_cases(ctx, [sub])
+    cases = [c for c in cases if c["kind"] != "histories"]
     derive = [c for c in cases if c["kind"] == "derive"]
     cases = [c for c in cases if c["kind"] != "derive"]
     if cases:
@@ -1521,11 +1976,13 @@ def eval_plain_cases(ctx, cases):
                 reqs.append(L("sysinfo_ok", state=machine_state_json(c), got=sj)); slots.append((i, "oracle"))
                 add_derived_reqs(L, reqs, slots, i, sj, w["derived"])
         elif k == "direct":
-            from rig.machine_control.machine_controller import SystemInfo
-            si = SystemInfo(c["width"], c["height"], {(ch["x"], ch["y"]): mk_chipinfo(ch) for ch in c["chips"]})
+            si = mk_sysinfo(c)
             sj = si_json(si)
             w["impl"] = {"ok": {"sysinfo": sj}}
-            w["derived"] = derived_json(si)
+            w["derived"] = derived_json(si, None, c.get("opts"))
+            ctx.tag("direct_si_" + c.get("si_kind", "plain"), "derive_res_%d" % (c.get("opts") or {}).get("res", 0),
+                    "derive_lazy" if (c.get("opts") or {}).get("lazy") is not None else "derive_eager",
+                    "direct_huge" if c.get("huge") else "direct_usual")
             w["member_ok"] = membership_ok(si, c["chips"])
             add_derived_reqs(L, reqs, slots, i, sj, w["derived"])
         elif k == "core":
@@ -1566,9 +2023,13 @@ def eval_plain_cases(ctx, cases):
 
 
 def add_derived_reqs(L, reqs, slots, i, sj, d):
+    if "failed" in d:
+        return
     reqs.append(L("build_machine", **sj)); slots.append((i, "model_machine"))
     reqs.append(L("core_constraints", **sj)); slots.append((i, "model_constraints"))
     reqs.append(L("contains", sysinfo=sj, queries=d["member_queries"])); slots.append((i, "model_member"))
+    reqs.append(L("machine_views", sysinfo=sj, queries=d["machine_queries"], iter=d["machine_iter"]))
+    slots.append((i, "model_views"))
     reqs.append(L("dead_ok", sysinfo=sj, dead_chips=d["dead_chips"], dead_links=d["dead_links"]))
     slots.append((i, "oracle_dead"))
     reqs.append(L("machine_ok", sysinfo=sj, got=d["machine"])); slots.append((i, "oracle_machine"))
@@ -1599,6 +2060,12 @@ def sort_machine(mj):
     return mj
 
 
+def err_key(text):
+    """an implementation call that did not return (the Lean model of every probe / derivation is a total function)
+    has its own key"""
+    return "did-not-return" if "DidNotReturn" in str(text) else "unexpected-error"
+
+
 def cmp(ctx, suite, impl, model, desc):
     if impl != model:
         ctx.mismatch("c14." + suite, "impl=%.300r model=%.300r" % (impl, model), desc)
@@ -1606,10 +2073,19 @@ def cmp(ctx, suite, impl, model, desc):
 
 def judge_derived(ctx, c, w, desc):
     d = w["derived"]
+    if "failed" in d:
+        ctx.violation(err_key(d["failed"]), "deriving the machine / constraints / views from the description failed: %s "
+                      "(description %.300r)" % (d["failed"], w["impl"]["ok"]["sysinfo"]), desc)
+        return False
     sj = w["impl"]["ok"]["sysinfo"]
     cmp(ctx, "build_machine", d["machine"], sort_machine(w["model_machine"]), desc)
     cmp(ctx, "core_constraints", d["constraints"], w["model_constraints"], desc)
     cmp(ctx, "contains", d["member"], w["model_member"], desc)
+    cmp(ctx, "machine_views", d["machine_views"], w["model_views"], desc)
+    if d["machine_views"] != w["model_views"] and w["oracle_machine"] is True:
+        # the Machine's fields are right (machine_ok) but what it answers / yields is not what they say
+        ctx.violation("machine-model-wrong", "Machine.__contains__ / __getitem__ / iteration disagree with the machine's "
+                      "chips, links and quantities: %.300r" % (d["machine_views"]["answers"][:12],), desc)
     if not d["shape_ok"]:
         ctx.violation("machine-model-wrong", "resources / constraint objects have an unexpected shape", desc)
     if w["oracle_dead"] is not True:
@@ -1623,6 +2099,11 @@ def judge_derived(ctx, c, w, desc):
                       "overlap: %.400r" % (d["constraints"],), desc)
     if not w["member_ok"]:
         ctx.violation("system-info-wrong", "SystemInfo.__contains__ disagrees with its records", desc)
+    elif d["member"] != w["model_member"]:
+        bad = [(q, a, b) for q, a, b in zip(d["member_queries"], d["member"], w["model_member"]) if a != b][:4]
+        ctx.violation("system-info-wrong", "SystemInfo.__contains__ (integers passed as %s) answers differently from what "
+                      "its records say: [kind, x, y, a, b] -> got, expected: %r" % (
+                          (c.get("opts") or {}).get("qkind", "int"), bad), desc)
     # derived iterators against the description itself
     want_links = sorted([ch["x"], ch["y"], l] for ch in sj["chips"] for l in ch["links"])
     want_cores = [[ch["x"], ch["y"], p, s] for ch in sj["chips"] for p, s in enumerate(ch["core_states"])]
@@ -1649,7 +2130,7 @@ def judge(ctx, c, w):
         if c["malform"] is None or c["malform"][0] in ("long", "high_bits"):
             nontriv = True
             if "err" in impl:
-                ctx.violation("unexpected-error", "get_chip_info raised %s on a well-formed reply" % impl["err"], desc)
+                ctx.violation(err_key(impl["err"]), "get_chip_info raised %s on a well-formed reply" % impl["err"], desc)
             elif w["oracle"] is not True:
                 ctx.violation("chip-info-wrong", "get_chip_info returned %.400r for chip state %.400r" % (
                     impl["ok"], c["state"]), desc)
@@ -1659,14 +2140,16 @@ def judge(ctx, c, w):
             cmp(ctx, "system_info", impl["ok"]["sysinfo"], model["ok"]["sysinfo"], desc)
             d = w["derived"]
             for f in ("dead_chips", "dead_links", "links", "target_lengths"):
-                cmp(ctx, "system_info." + f, d[f], sorted(model["ok"][f]), desc)
-            cmp(ctx, "system_info.cores", d["cores"], model["ok"]["cores"], desc)
+                if "failed" not in d:
+                    cmp(ctx, "system_info." + f, d[f], sorted(model["ok"][f]), desc)
+            if "failed" not in d:
+                cmp(ctx, "system_info.cores", d["cores"], model["ok"]["cores"], desc)
         else:
             cmp(ctx, "system_info", impl, model, desc)
         ctx.tag("system_silent_%d" % min(2, len(c["silent"])), "system_rc_%d" % min(2, len(c["rc_chips"])),
                 "system_big" if c["dim_w"] > 100 or c["dim_h"] > 100 else "system_small")
         if "err" in impl:
-            ctx.violation("unexpected-error", "get_system_info raised %s" % impl["err"], desc)
+            ctx.violation(err_key(impl["err"]), "get_system_info raised %s" % impl["err"], desc)
         else:
             if w["oracle"] is not True:
                 ctx.violation("system-info-wrong", "get_system_info returned a description that is not exactly the "
@@ -1682,18 +2165,18 @@ def judge(ctx, c, w):
         nontriv = len(c["blocks"]) >= 1
         o = w["oracle"]
         if c["malform"] is None and "err" in w["impl_status"]:
-            ctx.violation("unexpected-error", "get_processor_status raised %s" % w["impl_status"]["err"], desc)
+            ctx.violation(err_key(w["impl_status"]["err"]), "get_processor_status raised %s" % w["impl_status"]["err"], desc)
         elif not o["status"]:
             ctx.violation("status-wrong", "get_processor_status returned %.500r" % (w["impl_status"],), desc)
         if "err" in w["impl_text"]:
-            ctx.violation("unexpected-error", "get_iobuf_bytes raised %s" % w["impl_text"]["err"], desc)
+            ctx.violation(err_key(w["impl_text"]["err"]), "get_iobuf_bytes raised %s" % w["impl_text"]["err"], desc)
         elif not o["text"]:
             ctx.violation("iobuf-wrong", "get_iobuf_bytes returned %.200r, the chain holds %.200r" % (
                 w["impl_text"]["ok"], w["core_spec"]["text"]), desc)
         if "impl_str" in w and w["impl_str"].get("ok") != w["want_str"]:
             ctx.violation("iobuf-wrong", "get_iobuf returned %.200r" % (w["impl_str"],), desc)
         if "err" in w["impl_diag"]:
-            ctx.violation("unexpected-error", "get_router_diagnostics raised %s" % w["impl_diag"]["err"], desc)
+            ctx.violation(err_key(w["impl_diag"]["err"]), "get_router_diagnostics raised %s" % w["impl_diag"]["err"], desc)
         elif not o["diag"]:
             ctx.violation("router-counters-wrong", "get_router_diagnostics returned %r" % (w["impl_diag"],), desc)
     elif k == "session":
@@ -1704,7 +2187,7 @@ def judge(ctx, c, w):
         ctx.tag("sver_" + ("legacy" if c["legacy"] else "string"))
         nontriv = not c["legacy"]
         if "err" in impl:
-            ctx.violation("unexpected-error", "get_software_version raised %s" % impl["err"], desc)
+            ctx.violation(err_key(impl["err"]), "get_software_version raised %s" % impl["err"], desc)
         elif w["oracle"] is not True:
             ctx.violation("version-wrong", "get_software_version returned %.400r" % (impl["ok"],), desc)
     ctx.case(desc, nontriv)
@@ -1716,8 +2199,11 @@ def gen_cases(ctx, n_sys, n_big, n_direct, n_chip, n_core, n_sver, n_session=0, 
     cases += [gen_system(rng, False) for _ in range(n_sys)]
     cases += [gen_system(rng, True) for _ in range(n_big)]
     cases += [gen_direct(rng, i % 25 == 24) for i in range(n_direct)]
+    cases += [gen_huge(rng) for _ in range(max(2, n_direct // 100))]
     cases += [gen_chip(rng) for _ in range(n_chip)]
     cases += [gen_core(rng) for _ in range(n_core)]
+    cases += [gen_core(rng, size=rng.choice([4, 16]), nblocks=rng.choice([257, 300, 1100]))
+              for _ in range(max(2, n_core // 100))]      # SCALE: console output chained over hundreds of blocks
     cases += [gen_sver(rng) for _ in range(n_sver)]
     cases += [gen_session(rng) for _ in range(n_session)]
     cases += [gen_derive(rng) for _ in range(n_derive)]
@@ -1736,9 +2222,9 @@ def run(ctx):
         "at least one chip is listed in the probed P2P table (otherwise the code raises ValueError from max())"]
     k = 4 if ctx.extended else 1
     if ctx.quick:
-        cases = gen_cases(ctx, 220 * k, 6 * k, 150 * k, 400 * k, 150 * k, 200 * k, 250 * k, 150 * k)
+        cases = gen_cases(ctx, 180 * k, 6 * k, 120 * k, 300 * k, 120 * k, 150 * k, 230 * k, 130 * k)
     else:
-        cases = gen_cases(ctx, 4000 * k, 60 * k, 3000 * k, 8000 * k, 3000 * k, 4000 * k, 5000 * k, 3000 * k)
+        cases = gen_cases(ctx, 3000 * k, 60 * k, 2400 * k, 6000 * k, 2400 * k, 3000 * k, 4000 * k, 2400 * k)
     plain = [c for c in cases if c["kind"] not in ("session", "derive")]
     hist = [c for c in cases if c["kind"] in ("session", "derive")]
     for i in range(0, len(plain), 400):
@@ -1749,10 +2235,50 @@ def run(ctx):
             # session in this process would only repeat it
             ctx.tag("history_streams_stopped")
             break
-        eval_cases(ctx, hist[i:i + 40])
+        # every batch of histories starts with the in-scope rig modules imported afresh
+        fresh_rig()
+        batch = hist[i:i + 40]
+        n0 = len(ctx.concrete)
+        eval_cases(ctx, batch)
+        if len(ctx.concrete) > n0:
+            confirm_history(ctx, batch, n0)
+
+
+def confirm_history(ctx, batch, n0):
+    """A replay must reproduce: every failing history of the batch (the first few) is run again alone after a fresh
+    import.  If it fails again, it is its own replay; if not, its result depended on the histories that ran before it
+    in this process, and the replay carries all of them"""
+    later = ctx.concrete[n0:]
+    del ctx.concrete[n0:]
+    tainted, counters = _TAINTED[0], (ctx.evaluations, ctx.traces, dict(ctx.tags), set(ctx.nontrivial))
+    verdict = {}            # id(case) -> reproduces alone
+    for key, what, case in later:
+        idx = next((j for j, c in enumerate(batch) if c is case), None)
+        if idx is None or id(case) in verdict or len(verdict) >= 6:
+            continue
+        _TAINTED[0] = None
+        fresh_rig()
+        eval_cases(ctx, [case])
+        verdict[id(case)] = len(ctx.concrete) > n0
+        del ctx.concrete[n0:]
+    ctx.evaluations, ctx.traces, ctx.tags, ctx.nontrivial = counters
+    _TAINTED[0] = tainted
+    for key, what, case in later:
+        if verdict.get(id(case), True):
+            ctx.tag("failing_history_reproduces_alone")
+            ctx.concrete.append((key, what, case))
+        else:
+            ctx.tag("failing_history_needs_predecessors")
+            idx = next(j for j, c in enumerate(batch) if c is case)
+            _TAINTED[0] = _TAINTED[0] or "probe-depends-on-process-history"
+            ctx.violation("probe-depends-on-process-history",
+                          what + " [%s; alone, after a fresh import of rig, this history is right: the replay carries the "
+                          "%d histories that ran before it in the same process]" % (key, idx),
+                          {"kind": "histories", "cases": batch[:idx + 1]})
 
 
 def replay(ctx, payload):
     _TAINTED[0] = None
     ctx.extra["rule"] = RULE
+    fresh_rig()
     eval_cases(ctx, [payload["case"]])
